@@ -3,5 +3,4 @@
 #define STUB(n) int n(void) { harness_fail(#n " not implemented"); return 2; }
 
 
-STUB(eng_abi)
 int eng_probe(void) { for (int c = 0; c < NCFG; c++) ev_printf("{\"ev\":\"cfg\",\"name\":\"%s\",\"variant\":\"%s\"}", g_cfgs[c].name, variant_name(g_cfg_variant[c])); return 0; }
